@@ -80,6 +80,50 @@ def stage_sequences(ctx: Ctx, progs, tracer: Tracer | None):
     ctx.extra['edits_raised'] = nexc
 
 
+BINOPS = {'+': ast.Add, '-': ast.Sub, '*': ast.Mult, '@': ast.MatMult, '/': ast.Div, '%': ast.Mod, '**': ast.Pow, '<<': ast.LShift, '>>': ast.RShift, '|': ast.BitOr,
+          '^': ast.BitXor, '&': ast.BitAnd, '//': ast.FloorDiv}
+OP_EXPRS = ['a + b * c', 'p | q >> r', 'a - b @ c', 'a * b ** c', '(a + b) * c', 'a ** b ** c', 'a << b + c', 'a & b | c', 'a * (b / c)', '(a - b) - c', 'a - (b - c)', 'a // b % c',
+            'x = f(a + b * c, d ^ e & g)', 'ü * é + (n - m)', 'a + b * c - d / e // f % g ** h @ i', '-a ** b', '(-a) ** b', 'a @ b @ c', 'a ^ b ^ (c ^ d)', 'a % (b * c)']
+
+
+def stage_operator_sweep(ctx: Ctx):
+    """every binary operator of a set of expressions replaced by every other binary operator (deterministic): the source
+    must re-parse to the tree whose only difference is that operator"""
+    import fst
+    for src in OP_EXPRS:
+        probe = fst.FST(src, 'exec')
+        paths = [probe.child_path(f) for f in probe.walk(True) if isinstance(f.a, ast.BinOp)]
+        for path in paths:
+            for sym, cls in BINOPS.items():
+                root = fst.FST(src, 'exec')
+                f = root.child_from_path(path)
+                want = ast.parse(src)
+                tgt = edits.node_at(want, edits.path_of(root.a, f.a))
+                tgt.op = cls()
+                rec = {'src': src, 'binop': repr(f), 'new_op': sym}
+                for how in ('op.replace', 'put'):
+                    root = fst.FST(src, 'exec')
+                    f = root.child_from_path(path)
+                    try:
+                        if how == 'op.replace':
+                            f.op.replace(sym)
+                        else:
+                            f.put(sym, field='op')
+                    except Exception as e:
+                        ctx.violation(f'op-sweep-raise|{type(e).__name__}', 'replacing a binary operator raised', {**rec, 'how': how, 'error': repr(e)[:200]})
+                        continue
+                    ctx.tick(('opsweep', src, str(path), sym, how), 'op:binop-operator')
+                    d = reparse_diffs(root)
+                    if d:
+                        ctx.violation(f'pos|operator-replace|{d[0][:40]}', 'after replacing an operator the source parsed from scratch differs from the live tree',
+                                      {**rec, 'how': how, 'result_src': root.src, 'diffs': d})
+                        continue
+                    from lib.oracle import cmp_ast
+                    d = cmp_ast(root.a, want, positions=False)
+                    if d:
+                        ctx.violation('struct|operator-replace', 'replacing an operator changed more than the operator (grouping)', {**rec, 'how': how, 'result_src': root.src, 'diffs': d})
+
+
 def run(ctx: Ctx):
     ctx.rule = ('random edit sequences (length 1..8 quick / 1..30 thorough) over the hand corpus + generated programs; ops: replace/remove/cut of '
                 'expressions, statements, patterns; put_slice/insert/extend/prextend of statements and expressions; put(one); attribute '
@@ -97,6 +141,7 @@ def run(ctx: Ctx):
     tracer = Tracer(budget_offset=ctx.scale(150, 1500), budget_put=ctx.scale(250, 2500), max_nodes=160, rng=ctx.rng, sample=0.25)
     with tracer:
         run_guarded(ctx, stage_sequences, progs, tracer)
+    run_guarded(ctx, stage_operator_sweep)
     if ok:
         try:
             failed = coq_eval_bools('C01_troff', HDR, tracer.terms_offset, shard=40)
